@@ -66,6 +66,27 @@ def run(ctx):
     lines2 = split_validate(ctx, obs2, "GroupLocalTrace", "GroupLocalTrace.cfg", "local", "groupcache")
     ctx.cov["samples"].append([json.loads(x) for x in lines2[:8]])
     total += s2["lines"]; distinct += s2["executed"]
+    # deep random behaviours (tlc -simulate): what follows a step that leaves the VIEW unchanged (a failed fetch, a failed
+    # fill) is in none of the shortest behaviours emitted above
+    nsim = 400 if quick else 6000
+    for gen, cfg, drv, trace, kind in (("GroupLocalGen", "GroupLocal.Sim.cfg", "gc-local", "GroupLocalTrace", "groupcache"),
+                                       ("GroupFillGen", "GroupFill.Sim.cfg", "gc-fill", "GroupFillTrace", "fillcache")):
+        rc, out = V.tlc(ctx, gen, cfg, workers=1, timeout=900, tag="Gsim-" + kind,
+                        extra=["-simulate", "num=%d" % nsim, "-depth", "45", "-seed", str(ctx.seed)])
+        simf = os.path.join(ctx.scratch, "sim-%s.jsonl" % kind)
+        k = 0
+        with open(simf, "w") as f:
+            for line in out.splitlines():
+                if line.startswith('<<"BEH", ') and line.endswith(">>") and k < nsim:
+                    f.write(json.loads(line[len('<<"BEH", '):-2]) + "\n")
+                    k += 1
+        if k == 0:
+            raise V.Machinery("%s simulation emitted no behaviour:\n%s" % (gen, V.tail_err(out)))
+        obss = os.path.join(ctx.scratch, "sim-%s.ndjson" % kind)
+        ss = V.harness(ctx, [drv, "-in", simf, "-out", obss, "-seed", ctx.seed, "-sample", 0, "-workers", V.NCPU])
+        split_validate(ctx, obss, trace, trace + ".cfg", "sim-" + kind, kind)
+        total += ss["lines"]; distinct += ss["executed"]
+        ctx.cov.setdefault("simulated_behaviours", {})[kind] = ss["executed"]
     # free-running schedules
     obs3 = os.path.join(ctx.scratch, "stress.ndjson")
     s3 = V.harness(ctx, ["gc-stress", "-out", obs3, "-seed", ctx.seed, "-n", 60 if quick else 1500, "-workers", 4])
